@@ -136,7 +136,7 @@ class SubGrid(object):
         # o - Node position.
 
         # Number of rows in the sub-grid
-        num_rows = 1 + int((self.n_lat - self.s_lat) / self.lat_inc)
+        num_rows = 1 + int(round((self.n_lat - self.s_lat) / self.lat_inc))
         if num_rows < 3 or num_cols < 3:
             raise ValueError('bicubic interpolation requires a sub-grid of at least 3 rows and 3 columns')
 
@@ -559,7 +559,7 @@ def interpolate_ntv2(grid_object, lat, lon, method='bicubic'):
     # point of interest, then call relevant interpolation method function
 
     # determine number of columns
-    num_cols = 1 + int((in_grid.w_long - in_grid.e_long) / in_grid.long_inc)
+    num_cols = 1 + int(round((in_grid.w_long - in_grid.e_long) / in_grid.long_inc))
 
     # determine row and col numbers of node below right of point
     row = int((lat - in_grid.s_lat) / in_grid.lat_inc)
